@@ -224,7 +224,10 @@ def run(repo: Repo, rep: Report, tier: str) -> None:
             pass
 
     c13._slots(repo, _Only(rep), c)
-
+    # rules of sibling properties that are necessary conditions of this one as well (same rule ids)
+    from ..core.report import Only
+    from . import c14 as _c14
+    _c14._ownership(repo, Only(rep, {"R14.8", "R14.9"}))
 
 def _names(repo: Repo, rep: Report) -> None:
     """R04.4: injectivity of the internal method names over (direction, format, codec?, specialisation)."""
